@@ -47,5 +47,30 @@ Theorem c06_memo_refuted : exists (f : nat * nat -> nat) (key : nat * nat -> nat
   snd (call (nat * nat) nat nat key Nat.eqb f (fun c => c) (run_history (nat * nat) nat nat key Nat.eqb f (fun c => c) [] h) x) <> f x.
 Proof. exact memo_refuted. Qed.
 
+(* the same defect with a set-like key (frozenset of defects) in front of an order-dependent computation *)
+Theorem c06_memo_pure_factor : forall (X K V : Type) (key : X -> K) keqb,
+  (forall a b, keqb a b = true <-> a = b) -> forall (g : K -> V) evict,
+  (forall c k v, find K V keqb k (evict c) = Some v -> find K V keqb k c = Some v) ->
+  forall h x, snd (call X K V key keqb (fun x => g (key x)) evict
+                     (run_history X K V key keqb (fun x => g (key x)) evict [] h) x) = g (key x).
+Proof. exact memo_pure_factor. Qed.
+Theorem c06_memo_refuted_setkey : exists (f : list nat -> nat) (h : list (list nat)) (x : list nat),
+  snd (call (list nat) (list nat) nat as_set list_eqb f (fun c => c)
+         (run_history (list nat) (list nat) nat as_set list_eqb f (fun c => c) [] h) x) <> f x.
+Proof. exact memo_refuted_setkey. Qed.
+
+(* process-global ambient state (mpmath precision, numpy error state): if every component preserves the part of
+   it that results depend on, no history of other components is visible; an unscoped change is visible *)
+Theorem c06_ambient_pure : forall (S X Y W : Type) (comp : S -> X -> S * Y) (view : S -> W),
+  (forall s s' x, view s = view s' -> snd (comp s x) = snd (comp s' x)) ->
+  (forall s x, view (fst (comp s x)) = view s) ->
+  forall h s x, snd (comp (amb_history S X Y comp s h) x) = snd (comp s x).
+Proof. exact ambient_pure. Qed.
+Theorem c06_ambient_refuted : exists (h : list (nat + nat)) (x : nat + nat),
+  snd (leaky (amb_history nat (nat + nat) nat leaky 2 h) x) <> snd (leaky 2 x).
+Proof. exact ambient_refuted. Qed.
+
 Print Assumptions c06_function_of_stream. Print Assumptions c06_stream_positions.
 Print Assumptions c06_prefix_extension. Print Assumptions c06_memo_pure. Print Assumptions c06_memo_refuted.
+Print Assumptions c06_memo_pure_factor. Print Assumptions c06_memo_refuted_setkey.
+Print Assumptions c06_ambient_pure. Print Assumptions c06_ambient_refuted.
